@@ -378,6 +378,25 @@ def check_chunk(res, N, bl, strand, a, b, cstrand):
         res.deviation("chunk->chunk", case, lib.canon_loc(o4[1]) if o4[0] == "ok" else o4[1], lib.canon_loc(R), sig="chunk-relift")
 
 
+    # ... and onto the WHOLE chromosome: a parent that carries the chromosome sequence (the chunk's own chromosome level carries
+    # none), and a sequence-less chromosome parent - same bases, chromosome coordinates, and the sequence where there is one
+    from inscripta.biocantor.io.parser import seq_to_parent
+
+    for tname, target in (("chrom-seq", seq_to_parent(G, alphabet=ALPHA, seq_id="chrV")), ("chrom-noseq", Parent(id="chrV", sequence_type="chromosome"))):
+        o5 = lib.outcome(AbstractInterval.liftover_location_to_seq_chunk_parent, R, target)
+        res.trans()
+        c5 = dict(case, target=tname)
+        if o5[0] != "ok":
+            res.deviation("chunk->whole chromosome", c5, o5[1], [inside, strand], sig="chunk-to-chromosome-raises")
+            continue
+        if M.P(lib.loc_blocks(o5[1]), lib.loc_strand(o5[1])) != inside or lib.loc_strand(o5[1]) != strand:
+            res.deviation("chunk->whole chromosome", c5, lib.canon_loc(o5[1]), [inside, strand], sig="chunk-to-chromosome-positions")
+        elif tname == "chrom-seq":
+            o6 = lib.outcome(lambda: str(o5[1].extract_sequence()))
+            if o6[0] != "ok" or o6[1] != e:
+                res.deviation("chunk->whole chromosome", c5, o6[1], e, sig="chunk-to-chromosome-sequence")
+
+
 def run_shard(shard):
     res = ShardResult()
     w = WORLD[shard["tier"]]
